@@ -61,7 +61,7 @@ TCreate(E) ==
   /\ UNCHANGED stack
 
 TOp(E) ==
-  /\ E.e = "op"
+  /\ E.e = "op" /\ E.op.o \notin {"forged", "rawreq"}
   /\ \E r \in {Outcome(E.c, E.op)} :      \* bound, hence rigid under the prime below
        /\ truth' = r.truth /\ cores' = r.cores
        /\ E.ret = r.ret
@@ -74,6 +74,45 @@ TOp(E) ==
   /\ (E.op.o = "mro" /\ ~cores[E.c].writable => E.jn = 0)
   /\ (cores[E.c].sealed)' => E.leak = <<>>
   /\ UNCHANGED stack
+
+\* C04: an altered or forged proof is applied to a replica.  Refusing (an error or `false`) must
+\* leave every observation unchanged; accepting is tolerated only for alterations the scheme
+\* does not have to detect (E.op.must = FALSE) and only if what the replica then believes is
+\* still a sub-state of the log its key signed: the new state is read off the logged view and
+\* ViewOK pins every field of it (length, byte length, held blocks, block digests) to `truth`.
+TForged(E) ==
+  /\ E.e = "op" /\ E.op.o = "forged"
+  /\ E.ret.t \in {"ok", "err"}           \* C09: never a panic or a hang
+  /\ IF E.ret.t = "ok" /\ E.ret.applied
+     THEN /\ ~E.op.must
+          /\ LET me == cores[E.c] IN
+             /\ E.view.len >= me.len /\ E.view.len <= RLen(truth[me.key])
+             /\ cores' = [cores EXCEPT ![E.c] = [me EXCEPT !.len = E.view.len, !.held = E.view.held]]
+             /\ \A k \in 1..Len(me.held) : \A i \in me.held[k][1]..(me.held[k][2] - 1) : IvHas(E.view.held, i)
+          /\ truth' = truth
+     ELSE /\ UNCHANGED <<truth, cores>>
+          /\ \A s \in 1..Len(E.ev) : E.ev[s] = <<>>
+          /\ E.jn = 0
+  /\ Len(E.ev) = cores[E.c].subs
+  /\ ViewOK(E.c, E.view)'
+  /\ UNCHANGED stack
+
+\* C09: any request whatsoever is answered with a proof, no proof, or an error; nothing changes
+TRawReq(E) ==
+  /\ E.e = "op" /\ E.op.o = "rawreq"
+  /\ E.ret.t \in {"proof", "none", "err"}
+  /\ UNCHANGED <<truth, cores, stack>>
+  /\ E.jn = 0
+  /\ ViewOK(E.c, E.view)
+
+\* C03: after replication has completed the replica has the writer's length and every block
+\* the writer still holds (contents are pinned to `truth` by ViewOK on both sides)
+TSynced(E) ==
+  /\ E.e = "synced"
+  /\ ViewOK("w", E.w) /\ ViewOK("r", E.r)
+  /\ E.r.len = E.w.len /\ E.r.bytes = E.w.bytes
+  /\ \A k \in 1..Len(E.w.held) : \A i \in E.w.held[k][1]..(E.w.held[k][2] - 1) : IvHas(E.r.held, i)
+  /\ UNCHANGED <<truth, cores, stack>>
 
 \* the call E.op was in progress when the process died after E.ks storage operations
 \* (E.cut >= 0: and only E.cut bytes of the next write reached the store); reopening gave E.view
@@ -122,6 +161,7 @@ TNext ==
   /\ \E E \in {Rec[l]} :
        \/ TReset(E) \/ TCreate(E) \/ TOp(E) \/ TCrashOpen(E) \/ TIoErr(E)
        \/ TCrashCreate(E) \/ TPush(E) \/ TPop(E)
+       \/ TForged(E) \/ TRawReq(E) \/ TSynced(E)
 
 TInit == truth = Empty /\ cores = Empty /\ stack = <<>> /\ l = 1
 
